@@ -1,4 +1,4 @@
 SPECIFICATION Spec
 CONSTANTS Bodies = {"none", "small", "large"}
-          PMs = {"signed", "unsigned", "ss", "sst", "sut"}
+          PMs = {"signed", "unsigned", "ss", "sst", "sut", "ss+te", "sst+te", "sut+te"}
 POSTCONDITION Finished
